@@ -18,8 +18,9 @@ ASSUMPTIONS = [
     "threshold comparisons within rel. 1e-9 of an integer boundary accept both outcomes; arg-max ties within rel. 1e-9",
     "VHCT's width is the published Bernstein form sqrt(2 c^2 V ln(1/dt)/T) + 3 b c^2 ln(1/dt)/T with V floored at 1e-3",
 ]
-FLOOR = {"u_values_compared": {"quick": 200000, "thorough": 5000000}, "b_values_compared": {"quick": 100000, "thorough": 2500000},
-         "paths_checked": {"quick": 20000, "thorough": 400000}}
+FLOOR = {"u_values_compared": {"quick": 200000, "thorough": 1600000},
+         "b_values_compared": {"quick": 100000, "thorough": 800000},
+         "paths_checked": {"quick": 20000, "thorough": 160000}}
 WALL = {"quick": 1500, "thorough": 5 * 3600}
 
 
